@@ -122,6 +122,31 @@ void run_neg(sink& out, std::vector<A> const& ls)
     }
 }
 
+// ++x, x++, --x, x-- on overflow_integer<A, Tag>: the object afterwards and the value the expression returned
+template<class Tag, class A>
+void run_incdec(sink& out, std::vector<A> const& ls)
+{
+    using W = cnl::overflow_integer<A, Tag>;
+    char const* names[4] = {"preinc", "postinc", "predec", "postdec"};
+    for (int k = 0; k < 4; ++k) {
+        int id = add_inst(out, ev("Inst").str("kind", "OvInc").str("op", names[k]).str("tag", tagname<Tag>()).str("api", "wrapper")
+                                       .str("path", VERIF_PATH).raw("lt", ty<A>()).raw("rt", ty<A>()).raw("res_t", ty<A>()));
+        for (A a : ls) {
+            W x{a};
+            A ret{};
+            auto o = guarded([&] {
+                switch (k) {
+                case 0: ret = cnl::_impl::to_rep(++x); break;
+                case 1: ret = cnl::_impl::to_rep(x++); break;
+                case 2: ret = cnl::_impl::to_rep(--x); break;
+                default: ret = cnl::_impl::to_rep(x--); break;
+                }
+            });
+            out.put(ev("OvInc").num("i", id).raw("l", enc(a)).raw("res", enc(cnl::_impl::to_rep(x))).raw("ret", o == "ok" ? enc(ret) : "[0]").str("out", o).s);
+        }
+    }
+}
+
 template<class Tag, class A, class D>
 void run_conv(sink& out, std::vector<A> const& ls)
 {
@@ -259,6 +284,11 @@ int main(int argc, char** argv)
     run_neg<cnl::_impl::throwing_overflow_tag>(out, nl);
     run_neg<cnl::trapping_overflow_tag>(out, nl);
     run_neg<cnl::native_overflow_tag>(out, nl);
+    if constexpr (sizeof(L) <= 8) {
+        run_incdec<cnl::saturated_overflow_tag>(out, nl);
+        run_incdec<cnl::_impl::throwing_overflow_tag>(out, nl);
+        run_incdec<cnl::trapping_overflow_tag>(out, nl);
+    }
     for_rhs<std::int8_t>(out, 0);
     for_rhs<std::uint8_t>(out, 1);
     for_rhs<std::int16_t>(out, 2);
